@@ -117,6 +117,15 @@ func (p c15) Run(par *fw.Parent) *fw.Result {
 	for _, dg := range []string{"12", "123456", "40414240"} {
 		pool = append(pool, Req{Fam: "2of5", S: []byte(dg), I: []int64{0}, Scheme: -1}, Req{Fam: "2of5", S: []byte(dg), I: []int64{1}, Scheme: -1})
 	}
+	// the WithColor entry point of every family: in its one-shot process it is the very
+	// first call into that package
+	for i, fam := range families {
+		q := randomValidReq(r, fam, int64(5+i))
+		pool = append(pool, q)
+		p2 := q
+		p2.Scheme = -1
+		pool = append(pool, p2)
+	}
 	// some requests that are rejected, and Auto-mode QR taking the alphanumeric failure path
 	pool = append(pool, Req{Fam: "qr", S: []byte("hello world"), I: []int64{1, 0}, Scheme: -1},
 		Req{Fam: "qr", S: []byte("HELLO world"), I: []int64{2, 2}, Scheme: -1},
@@ -201,6 +210,16 @@ func (p c15) Run(par *fw.Parent) *fw.Result {
 		}
 	}
 
+	// QR contents of different modes with equal bit counts, back to back in a fresh process
+	npairs := 80
+	if thorough {
+		npairs = 600
+	}
+	for i, pu := range qrPairUnits(r, "qrpair", npairs) {
+		qs := qrPairReqs(&pu)
+		jobs = append(jobs, histJob{ID: fmt.Sprintf("qrpair-%d", i), Kind: "pair", Reqs: []Req{qs[0], qs[1]}},
+			histJob{ID: fmt.Sprintf("qrpair-%d-b", i), Kind: "oneshot", Reqs: []Req{qs[1]}})
+	}
 	results, notes := runJobs(par.Self, par.WorkDir, jobs, par.Workers, nil)
 	merged.Inconclusive = append(merged.Inconclusive, notes...)
 
